@@ -20,15 +20,27 @@ func verifC50Field(name string, max int) string {
 	return string(b)
 }
 
+// verifC50Authority: the text between the scheme prefix and the first '/', '?' or '#'
+func verifC50Authority(out, prefix string) string {
+	rest := strings.TrimPrefix(out, prefix)
+	if i := strings.IndexAny(rest, "/?#"); i >= 0 {
+		rest = rest[:i]
+	}
+	return rest
+}
+
 // verifC50Check: s is accepted by ParseConfig with a non-empty password: the displayed form must
 // carry the mask and must not carry the password in decoded, re-escaped or raw form.
 func verifC50Check(s, rawP string, u *url.URL, out string) {
 	pw, _ := u.User.Password()
 	verifrt.Assert(strings.HasPrefix(out, "rest:http://"), "displayed location lost its scheme")
 	verifrt.Assert(strings.Contains(out, ":***@"), "password set but no mask in the displayed location")
-	verifrt.Assert(!strings.Contains(out, ":"+pw+"@"), "displayed location contains the decoded password")
+	// the password may only be looked for in the authority part: path, query and fragment are
+	// displayed as they are and may happen to contain the same characters
+	auth := verifC50Authority(out, "rest:http://")
+	verifrt.Assert(!strings.Contains(auth, ":"+pw+"@"), "displayed location contains the decoded password")
 	esc := url.UserPassword("", pw).String() // ":" + escaped password
-	verifrt.Assert(!strings.Contains(out, esc+"@"), "displayed location contains the escaped password")
+	verifrt.Assert(!strings.Contains(auth, esc+"@"), "displayed location contains the escaped password")
 	// the raw password of the input is the text between the first ':' and the last '@' of the
 	// authority; in the template it always ends with rawP when the template's '@' is the last one
 	if u.Host == "h" {
